@@ -24,7 +24,7 @@ import (
 
 const c06Rule = "five entry points (container file -> ReadFile, record body -> Codec.Read and Codec.Skip, schema JSON -> SchemaFromString, decoder construction -> Schema.Codec of the parsed schema against catalogue targets, timestamp text); " +
 	"inputs: structure-aware mutations of valid encodings (every length / count / block size / union selector / metadata length / file block count / file block length token located by the reference decoder's spans is replaced by one of " +
-	"-1, MinInt64, 0, 1, v+1, 2^31, 2^32, 2^62-1, MaxInt64, an 11-byte varint, a truncated varint), truncation at a drawn byte, single-bit flips, header variants (no codec, unknown codec, snappy block < 4 bytes), random bytes; " +
+	"-1, MinInt64, 0, 1, v+1, 2^31, 2^32, 2^62-1, MaxInt64, an 11-byte varint, a truncated varint; count and block size of a size-prefixed block set together to one large value), truncation at a drawn byte, single-bit flips, header variants (no codec, unknown codec, snappy block < 4 bytes), random bytes; " +
 	"evaluated in a worker subprocess (6 GiB address space): verdict = value or error, no panic, no process death, answer within 20 s, growth of the heap footprint (MemStats.HeapSys) <= 32 MiB + 4096 x len(input); " +
 	"arrays whose items encode to zero bytes and zero-width top-level records are excluded (legal unbounded amplification); " +
 	"non-trivial = the input differs from a valid encoding in exactly one token, or is a strict prefix of one; distinct by (entry point, input bytes)"
@@ -398,6 +398,32 @@ func mutateBytes(t *rapid.T, valid []byte, spansOf func([]byte) []ref.Span) ([]b
 		return rapid.SliceOfN(rapid.Byte(), 0, 64).Draw(t, "random"), "random bytes"
 	}
 	spans := spansOf(valid)
+	// two cooperating tokens: the count and the byte size of a size-prefixed
+	// block set to the same large value (a bound derived from one of them is
+	// only as good as the other)
+	if gen.Uniform(t, "pairMutation", 4) == 0 {
+		for i := 0; i+1 < len(spans); i++ {
+			if spans[i].Kind == "count" && spans[i].Val < 0 && spans[i+1].Kind == "size" && spans[i+1].Start == spans[i].End {
+				big := []int64{1 << 28, 1 << 40, 1<<62 - 1, 1 << 24, math.MaxInt64, 1 << 31}[gen.Uniform(t, "pairValue", 6)]
+				out := append([]byte{}, valid[:spans[i].Start]...)
+				out = ref.AppendLong(out, -big)
+				out = ref.AppendLong(out, big)
+				out = append(out, valid[spans[i+1].End:]...)
+				return out, fmt.Sprintf("count and size tokens at %d := -%d / %d", spans[i].Start, big, big)
+			}
+		}
+		// no size-prefixed block in this encoding: turn the first plain count into a sized one
+		for i := range spans {
+			if spans[i].Kind == "count" && spans[i].Val > 0 {
+				big := []int64{1 << 28, 1 << 40, 1<<62 - 1, 1 << 24}[gen.Uniform(t, "pairValue", 4)]
+				out := append([]byte{}, valid[:spans[i].Start]...)
+				out = ref.AppendLong(out, -big)
+				out = ref.AppendLong(out, big)
+				out = append(out, valid[spans[i].End:]...)
+				return out, fmt.Sprintf("count token at %d := -%d followed by an inserted size %d", spans[i].Start, big, big)
+			}
+		}
+	}
 	if len(spans) == 0 {
 		pos := 0
 		if len(valid) > 0 {
